@@ -27,7 +27,16 @@ def snap_tensor(a):
     return (a._data.tobytes(), str(a._data.dtype), a.struct, a.slices, a.hfs, a.mfs, a.trans, a.isdiag, id(a.config.sym))
 
 
-def snap(x):
+def _has_data(sv):
+    """does the snapshot contain tensor / array data?"""
+    if not isinstance(sv, tuple) or not sv:
+        return False
+    if sv[0] in ("T", "M", "D", "A"):
+        return True
+    return any(_has_data(y) for y in sv[1:] if isinstance(y, tuple))
+
+
+def snap(x, _seen=None):
     import yastn
     if isinstance(x, yastn.Tensor):
         return ("T",) + snap_tensor(x)
@@ -36,16 +45,38 @@ def snap(x):
     if type(x).__name__ == "DoublePepsTensor":
         return ("D", snap_tensor(x.ket), snap_tensor(x.bra), tuple(x.trans), None if x.op is None else snap_tensor(x.op), tuple(sorted(x.swaps.items())))
     if type(x).__name__ in ("Peps", "Lattice"):
-        return ("P", repr(x.geometry), tuple(sorted((repr(k), snap(v)) for k, v in x._site_data.items() if v is not None)),
-                tuple(sorted((repr(k), snap(v)) for k, v in getattr(x, "_patch", {}).items())))
+        return ("P", repr(x.geometry), tuple(sorted((repr(k), snap(v, _seen)) for k, v in x._site_data.items() if v is not None)),
+                tuple(sorted((repr(k), snap(v, _seen)) for k, v in getattr(x, "_patch", {}).items())))
     if type(x).__name__ == "Peps2Layers":
-        return ("P2", snap(x.ket), None if x._bra is None else snap(x._bra))
+        return ("P2", snap(x.ket, _seen), None if x._bra is None else snap(x._bra, _seen))
     if isinstance(x, np.ndarray):
         return ("A", x.tobytes(), str(x.dtype), x.shape)
     if isinstance(x, (list, tuple)):
-        return ("L",) + tuple(snap(v) for v in x)
+        return ("L",) + tuple(snap(v, _seen) for v in x)
     if isinstance(x, dict):
-        return ("Dict",) + tuple(sorted((repr(k), snap(v)) for k, v in x.items()))
+        return ("Dict",) + tuple(sorted((repr(k), snap(v, _seen)) for k, v in x.items()))
+    if (type(x).__module__ or "").startswith("yastn.") and hasattr(x, "__dict__") and not isinstance(x, type) and not callable(x):
+        # any other yastn object (environments, their per-site records, geometries): all its attributes, recursively
+        _seen = set() if _seen is None else _seen
+        if id(x) in _seen:
+            return ("cycle", type(x).__name__)
+        _seen.add(id(x))
+        # attributes are read through the public access path (per-site records derive some fields lazily on first access) and only
+        # those that hold tensor data are part of the observable value (scratch attributes such as the window of the last
+        # measurement are not)
+        items = []
+        for k in sorted(vars(x)):
+            try:
+                v = getattr(x, k)
+            except Exception:  # noqa: BLE001
+                continue
+            if callable(v):
+                continue
+            sv = snap(v, _seen)
+            if _has_data(sv):
+                items.append((k, sv))
+        _seen.discard(id(x))
+        return ("Obj", type(x).__name__, tuple(items))
     return ("O", repr(x))
 
 
@@ -480,7 +511,7 @@ def part_peps(ctx):
             break
         sym = rng.choice(["U1", "Z2"])
         ops = yastn.operators.SpinlessFermions(sym=sym)
-        geo = fpeps.SquareLattice(dims=rng.choice([(1, 2), (2, 1), (2, 2)]), boundary="obc")
+        geo = fpeps.SquareLattice(dims=rng.choice([(1, 2), (2, 1), (2, 2), (2, 2), (2, 3), (3, 2)]), boundary="obc")
         occ = {s: ops.vec_n(val=rng.randint(0, 1)) for s in geo.sites()}
         psi = fpeps.product_peps(geo, occ)
         I, c, cp = ops.I(), ops.c(), ops.cp()
@@ -546,6 +577,7 @@ def part_peps(ctx):
             for k, v in objs.items():
                 if snap(v) != before[k]:
                     ctx.fail("oracle", f"c15:peps:{name}", f"{name} modified its operand {k}", case={"sym": sym, "dims": list(geo.dims), "call": name, "operand": k}, concrete=True)
+        part_envs(ctx, rng, psi, ops, geo, sym)
         # receiver's pending charge swaps survive apply_gate_on_ket (a method returning a modified shallow copy)
         T2 = p2[site]
         T2.add_charge_swaps_(ops.c().n, "k4")
@@ -577,6 +609,108 @@ def part_peps(ctx):
             if snap(c3) != s3:
                 ctx.fail("oracle", f"c15:peps:{cname}-independent-rev", f"apply_gate_ on the source changed its {cname}()", case={"sym": sym, "copy": cname}, concrete=True)
             ctx.count(f"D:independence:{cname}")
+
+
+def part_envs(ctx, rng, psi, ops, geo, sym):
+    """(D2) an environment is an operand of its own value-returning methods (measurements, sampling, serialisation, copies) and of the
+    measurements' arguments; copy()/clone() of an environment that has been updated are independent of it, in both directions"""
+    import yastn.tn.fpeps as fpeps
+    sites, bonds = geo.sites(), geo.bonds()
+    n, I, c, cp = ops.n(), ops.I(), ops.c(), ops.cp()
+    vecs = [ops.vec_n(val=0), ops.vec_n(val=1)]
+    psi = psi.copy()
+    for b in bonds:    # entangle (nearly) every bond: boundary vectors and projectors are then generic, not products
+        if rng.random() < 0.85:
+            psi.apply_gate_(fpeps.gates.gate_nn_hopping(1.0, rng.choice([0.3, 0.5, 0.2j]), I, c, cp, bond=b))
+    nup = rng.choice([0, 1, 1, 2])
+    svd4 = {"D_total": 4}
+
+    def make(kind):
+        if kind == "bd":
+            return fpeps.EnvBoundaryMPS(psi, opts_svd={"D_total": 8}, setup=rng.choice(["lr", "tb", "lrtb", "lrtb", "lrtb"]))
+        if kind == "ctm":
+            e = fpeps.EnvCTM(psi, init="eye")
+            for _ in range(nup):      # populates the projectors
+                e.update_(opts_svd=svd4)
+            return e
+        e = fpeps.EnvBP(psi)
+        for _ in range(nup):
+            e.update_()
+        return e
+
+    def mutate(kind, e):
+        if kind == "ctm":   # a different truncation than the one used so far: the projectors change even on a converged environment
+            e.update_(opts_svd={"D_total": rng.choice([1, 2, 3])}, moves=rng.choice(["hv", "h", "v"]))
+        elif kind == "bp":
+            e.update_()
+        else:
+            return False
+        return True
+
+    Nx, Ny = geo.Nx, geo.Ny
+    wins = [((0, Nx), (0, Ny))]
+    if Nx > 1:
+        wins.append(((rng.randrange(Nx - 1),) * 1 + (Nx,), (0, Ny)))
+    if Ny > 1:
+        wins.append(((0, Nx), (rng.randrange(Ny - 1), Ny)))
+    for kind in rng.sample(["bd", "ctm", "bp"], 2 if ctx.quick else 3):
+        try:
+            env = make(kind)
+        except Exception as e:  # noqa: BLE001
+            ctx.count(f"D2:setup-raised:{kind}:{type(e).__name__}")
+            continue
+        xr, yr = rng.choice(wins)
+        site, bond = rng.choice(sites), rng.choice(bonds)
+        table = [("measure_1site", lambda: env.measure_1site(n)), ("measure_1site:site", lambda: env.measure_1site(n, site=site)),
+                 ("measure_nn", lambda: env.measure_nn(n, n)), ("measure_nn:bond", lambda: env.measure_nn(cp, c, bond=bond)),
+                 ("measure_2site:v", lambda: env.measure_2site(n, n, xrange=xr, yrange=yr, dirn="v")),
+                 ("measure_2site:h", lambda: env.measure_2site(n, n, xrange=xr, yrange=yr, dirn="h")),
+                 ("measure_2site:cp-c", lambda: env.measure_2site(cp, c, xrange=xr, yrange=yr, dirn=rng.choice("hv"))),
+                 ("measure_nsite", lambda: env.measure_nsite(n, n, sites=[bond[0], bond[1]])),
+                 ("sample", lambda: env.sample(list(vecs))), ("sample:window", lambda: env.sample(list(vecs), xrange=xr, yrange=yr)),
+                 ("to_dict", lambda: env.to_dict()), ("save_to_dict", lambda: env.save_to_dict()),
+                 ("copy", lambda: env.copy()), ("clone", lambda: env.clone()), ("shallow_copy", lambda: env.shallow_copy()),
+                 ("getitem", lambda: env[site]), ("boundary_mps", lambda: env.boundary_mps(0, rng.choice("tblr"))),
+                 ("bond_metric-free", lambda: env.max_D() if hasattr(env, "max_D") else None)]
+        rng.shuffle(table)
+        table.sort(key=lambda nf: not nf[0].startswith("measure_2site"))     # the window measurements first (stable sort)
+        for name, fn in table[: (10 if ctx.quick else len(table))]:
+            if not hasattr(env, name.split(":")[0].split("-")[0]) and name not in ("getitem",):
+                continue
+            before, bpsi = snap(env), snap(psi)
+            try:
+                fn()
+            except Exception as e:  # noqa: BLE001
+                ctx.count(f"D2:raised:{kind}.{name}:{type(e).__name__}")
+            ctx.count(f"D2:call:{kind}.{name}")
+            case = {"part": "D2", "sym": sym, "dims": list(geo.dims), "env": kind, "call": name, "updates": nup}
+            ctx.case(case)
+            if snap(env) != before:
+                ctx.fail("oracle", f"c15:env:{kind}.{name}", f"{type(env).__name__}.{name} (a value-returning method) modified the environment it was called on", case=case, concrete=True)
+                break
+            if snap(psi) != bpsi:
+                ctx.fail("oracle", f"c15:env:{kind}.{name}:psi", f"{type(env).__name__}.{name} modified the PEPS of the environment", case=case, concrete=True)
+                break
+        # independence of copies
+        for cname in ("copy", "clone"):
+            if not hasattr(env, cname):
+                continue
+            try:
+                e2 = getattr(env, cname)()
+                s2, s1 = snap(e2), snap(env)
+                if s2 != s1:
+                    ctx.count(f"D2:{cname}-differs-from-source:{kind}")
+                case = {"part": "D2", "sym": sym, "dims": list(geo.dims), "env": kind, "copy": cname, "updates": nup}
+                if mutate(kind, env):
+                    if snap(e2) != s2:
+                        ctx.fail("oracle", f"c15:env:{kind}.{cname}-independent", f"an in-place update of a {type(env).__name__} changed its earlier {cname}()", case=case, concrete=True)
+                    s1 = snap(env)
+                    mutate(kind, e2)
+                    if snap(env) != s1:
+                        ctx.fail("oracle", f"c15:env:{kind}.{cname}-independent-rev", f"an in-place update of the {cname}() of a {type(env).__name__} changed the source", case=case, concrete=True)
+                    ctx.count(f"D2:independence:{kind}.{cname}")
+            except Exception as e:  # noqa: BLE001
+                ctx.count(f"D2:independence-raised:{kind}.{cname}:{type(e).__name__}")
 
 
 def search(ctx, broken, budget):
